@@ -265,6 +265,12 @@ void run_case(const uint8_t* data, size_t size, vf::Case& c) {
   if (mode == 0xFC) {  // raw: component, protocol (length-prefixed), value = rest; saved regression inputs
     int comp = b.u8() % NCOMP;
     std::string protocol = b.raw(16);
+    {  // same domain as the structured generator: a known protocol, and only for port / pathname
+      static const char* known[] = {"http", "https", "ws", "wss", "ftp", "file", "foo"};
+      bool ok = false;
+      for (auto k : known) ok |= protocol == k;
+      if (!ok || (comp != PORT && comp != PATHNAME)) protocol.clear();
+    }
     std::string v = vf::repair_utf8(b.rest());
     return check_value(comp, v, protocol, c);
   }
